@@ -21,6 +21,7 @@ EXPLANATION_ADDED = 'R3 also requires the client-certificate trust store to be l
 EXPLANATION_ADDED2 = ' (R7) a reload stores exactly the freshly built configuration and every reload function publishes it.'
 EXPLANATION = EXPLANATION + " Added while testing against seeded changes: " + EXPLANATION_ADDED + EXPLANATION_ADDED2
 EXPLANATION = EXPLANATION + " Round 10: (R8) the connector of a client handshake is built in that call from make_client_config(this call's arguments), never taken from process-wide state."
+EXPLANATION = EXPLANATION + " Rounds 12-13: (R9) the permissive verifier accepts every certificate (verify_server_cert is Ok on every path) and its TLS 1.2 / 1.3 signature hooks delegate to rustls::crypto::verify_tls1x_signature with the handshake's own arguments; (R10, thorough tier, native-tls) every native server-identity constructor refuses a configured client CA."
 ASSUMPTIONS = ["rustls / native-tls perform chain and name validation as documented for the configured verifier"]
 NOT_DECIDED = "rustls' own certificate validation; behaviour of established connections across a swap"
 QUICK_CONFIGS = ["default"]
